@@ -89,7 +89,7 @@ func (server *SugarDB) Flush(database int) {
 			// Clear db store.
 			clear(server.store[db])
 			// Clear db volatile key tracker.
-			clear(server.keysWithExpiry.keys[db])
+			server.keysWithExpiry.keys[db] = make([]string, 0)
 			// Clear db LFU cache.
 			server.lfuCache.cache[db].Mutex.Lock()
 			server.lfuCache.cache[db].Flush()
@@ -99,13 +99,21 @@ func (server *SugarDB) Flush(database int) {
 			server.lruCache.cache[db].Flush()
 			server.lruCache.cache[db].Mutex.Unlock()
 		}
+		// Nothing is stored any more, so nothing is accounted for.
+		server.memUsed = 0
 		return
 	}
 
+	// Release the memory accounted for the keys of this database.
+	for key, data := range server.store[database] {
+		if mem, err := data.GetMem(); err == nil {
+			server.memUsed -= mem + int64(unsafe.Sizeof(key)) + int64(len(key))
+		}
+	}
 	// Clear db store.
 	clear(server.store[database])
 	// Clear db volatile key tracker.
-	clear(server.keysWithExpiry.keys[database])
+	server.keysWithExpiry.keys[database] = make([]string, 0)
 	// Clear db LFU cache.
 	server.lfuCache.cache[database].Mutex.Lock()
 	server.lfuCache.cache[database].Flush()
@@ -224,6 +232,10 @@ func (server *SugarDB) setValues(ctx context.Context, entries map[string]interfa
 	for key, value := range entries {
 		expireAt := time.Time{}
 		if entry, ok := server.store[database][key]; ok {
+			// The overwritten entry is no longer stored: release what was accounted for it.
+			if oldMem, err := entry.GetMem(); err == nil {
+				server.memUsed -= oldMem + int64(unsafe.Sizeof(key)) + int64(len(key))
+			}
 			// An overwritten key keeps its deadline, unless that deadline has already passed:
 			// an expired key is missing, and a value written afterwards does not inherit its deadline.
 			if !(entry.ExpireAt != (time.Time{}) && entry.ExpireAt.Before(server.clock.Now())) {
